@@ -64,13 +64,16 @@ func (fr *Frame) callFn(st *State, site ssa.Instruction, fn *ssa.Function, args 
 	}
 	key := v.funcKey(fn)
 	if fr.top {
-		fr.anchorCallPre(st, fn)
+		for i, a := range args {
+			st.srcVar[fmt.Sprintf("callarg%d", i)] = a
+			st.srcAdr[fmt.Sprintf("callarg%d", i)] = false
+		}
 	}
 	var res Value
 	// methods of abstract (ring-element) types are interpreted by their ring meaning
 	if r, ok := fr.ringCall(st, fn, args); ok {
 		if fr.top {
-			st.srcVar["callresult"] = r
+			fr.bindCallResult(st, r)
 			fr.anchor(st, "call", fn.Name(), -1)
 		}
 		return r
@@ -79,21 +82,26 @@ func (fr *Frame) callFn(st *State, site ssa.Instruction, fn *ssa.Function, args 
 		if v.layerKeyOf(fn.Pkg, c) == v.curLayerKey && len(c.Lets) == 0 {
 			res = fr.applyContract(st, site, c, fn, args)
 			if fr.top {
-				st.srcVar["callresult"] = res
+				fr.bindCallResult(st, res)
 				fr.anchor(st, "call", fn.Name(), -1)
 			}
 			return res
 		}
 	}
+	if v.opaqueOK(fn) {
+		res = fr.opaqueCall(st, site, fn, args)
+		if fr.top {
+			fr.bindCallResult(st, res)
+			fr.anchor(st, "call", fn.Name(), -1)
+		}
+		return res
+	}
 	if len(fn.Blocks) == 0 {
 		unsup("call to %s: no Go body and no contract", key)
 	}
-	if v.opaqueOK(fn) {
-		return fr.opaqueCall(st, site, fn, args)
-	}
 	res = fr.inline(st, fn, args, bindings)
 	if fr.top {
-		st.srcVar["callresult"] = res
+		fr.bindCallResult(st, res)
 		fr.anchor(st, "call", fn.Name(), -1)
 	}
 	return res
@@ -375,11 +383,69 @@ func (v *Verifier) freshLike(name string, cur Value) Value {
 
 // ---------- opaque calls ----------
 
-func (v *Verifier) opaqueOK(fn *ssa.Function) bool { return false }
+// opaqueOK: with "option opaque-calls" every callee without a contract at the current layer is an opaque
+// call: its results are arbitrary values of the result types. The callee is ASSUMED not to write through its
+// arguments (recorded); functions whose writes matter need a contract with a modifies clause.
+func (v *Verifier) opaqueOK(fn *ssa.Function) bool { return v.opaqueCalls }
 
 func (fr *Frame) opaqueCall(st *State, site ssa.Instruction, fn *ssa.Function, args []Value) Value {
-	unsup("opaque call %s", fn.Name())
-	return nil
+	v := fr.v
+	v.assume("opaque call: " + v.funcKey(fn) + " is treated as returning arbitrary values and is assumed not to write through its arguments")
+	rs := fn.Signature.Results()
+	v.fresh++
+	// a pointer receiver is the destination of the method: it receives an arbitrary value
+	if r := fn.Signature.Recv(); r != nil && len(args) > 0 {
+		if pt, isPtr := r.Type().Underlying().(*types.Pointer); isPtr {
+			// setter-style methods (no result, or the receiver returned for chaining) write their receiver;
+			// predicates and getters (any other result type) are assumed not to
+			setter := rs.Len() == 0 || (rs.Len() >= 1 && types.Identical(rs.At(0).Type(), r.Type()))
+			if pv, ok := args[0].(*PtrV); ok && pv.Obj != nil && setter {
+				if !v.pureCalls[fn.Name()] {
+					if cur := v.content0(st, pv.Obj); cur != nil {
+						fr.store(st, pv, v.freshOfType(fmt.Sprintf("opq!%s!%d_recv", fn.Name(), v.fresh), pt.Elem(), v.getPath(cur, pv.Path)), nil)
+					}
+				}
+			}
+		}
+	}
+	if v.pureCalls[fn.Name()] && rs.Len() == 1 {
+		// declared pure: a deterministic function of the values of its arguments
+		var ats []*Term
+		okAll := true
+		for _, a := range args {
+			av := a
+			if p, isP := av.(*PtrV); isP && p.Obj != nil {
+				av = fr.load(st, p)
+			}
+			t, isT := av.(*Term)
+			if !isT {
+				okAll = false
+				break
+			}
+			ats = append(ats, t)
+		}
+		if s := v.scalarSort(rs.At(0).Type()); okAll && s != nil {
+			return v.F.App("pure_"+fn.Name(), s, ats...)
+		}
+	}
+	mk := func(i int) Value {
+		t := rs.At(i).Type()
+		if _, ok := t.Underlying().(*types.Interface); ok {
+			return &IfaceV{V: v.F.Fresh("opq!"+fn.Name()+"!iface", mkSort("Iface"))}
+		}
+		return v.symValue(fmt.Sprintf("opq!%s!%d_r%d", fn.Name(), v.fresh, i), t, false)
+	}
+	switch rs.Len() {
+	case 0:
+		return nil
+	case 1:
+		return mk(0)
+	}
+	es := make([]Value, rs.Len())
+	for i := range es {
+		es[i] = mk(i)
+	}
+	return &TupleV{es}
 }
 
 func (fr *Frame) invokeAbstract(st *State, site ssa.Instruction, iv *IfaceV, cc *ssa.CallCommon, args []Value) Value {
@@ -388,6 +454,36 @@ func (fr *Frame) invokeAbstract(st *State, site ssa.Instruction, iv *IfaceV, cc 
 	}
 	if r, ok := fr.ifaceContract(st, site, iv, cc, args); ok {
 		return r
+	}
+	if fr.v.opaqueCalls {
+		v := fr.v
+		v.assume("opaque interface call: " + cc.Method.Name() + " is treated as returning arbitrary values and is assumed not to write through its arguments")
+		sig := cc.Method.Type().(*types.Signature)
+		v.fresh++
+		mk := func(i int) Value {
+			t := sig.Results().At(i).Type()
+			if _, ok := t.Underlying().(*types.Interface); ok {
+				return &IfaceV{V: v.F.Fresh("opq!"+cc.Method.Name()+"!iface", mkSort("Iface"))}
+			}
+			return v.symValue(fmt.Sprintf("opq!%s!%d_r%d", cc.Method.Name(), v.fresh, i), t, false)
+		}
+		var res Value
+		switch sig.Results().Len() {
+		case 0:
+		case 1:
+			res = mk(0)
+		default:
+			es := make([]Value, sig.Results().Len())
+			for i := range es {
+				es[i] = mk(i)
+			}
+			res = &TupleV{es}
+		}
+		if fr.top {
+			fr.bindCallResult(st, res)
+			fr.anchor(st, "call", cc.Method.Name(), -1)
+		}
+		return res
 	}
 	unsup("interface method call %s on unknown dynamic type", cc.Method.Name())
 	return nil
@@ -753,5 +849,17 @@ func (fr *Frame) runDeferred(st *State, dc *deferredCall) {
 			unsup("deferred indirect call")
 		}
 		fr.callFn(st, dc.site, fv.Fn, dc.args, fv.Bindings)
+	}
+}
+
+// bindCallResult makes the result of the call just made visible to cut annotations (callresult, callresult0, ...).
+func (fr *Frame) bindCallResult(st *State, res Value) {
+	st.srcVar["callresult"] = res
+	st.srcAdr["callresult"] = false
+	if tv, ok := res.(*TupleV); ok {
+		for i, e := range tv.Elems {
+			st.srcVar[fmt.Sprintf("callresult%d", i)] = e
+			st.srcAdr[fmt.Sprintf("callresult%d", i)] = false
+		}
 	}
 }
